@@ -1,6 +1,7 @@
 import Hoot.Props.C02
 import Hoot.Props.C03
 import Hoot.Props.C04
+import Hoot.Props.C19
 import Hoot.Proofs.PropsWF
 set_option linter.unusedVariables false
 set_option linter.unusedSimpArgs false
@@ -121,7 +122,8 @@ theorem head_prelude (r : AReq) (wr0 : BodyWriter) (hne : r.headers ≠ []) (c :
       ((res = .error (.api .outputOverflow) ∧ HeadAt r wr0 c2 wire) ∨
        (res = .ok () ∧
           ((c2.phase.isPrelude = true ∧ HeadAt r wr0 c2 (wire ++ w2.out)) ∨
-           (c2.phase = .sendBody ∧ wire ++ w2.out = renderHead r)))) := by
+           (c2.phase = .sendBody ∧ wire ++ w2.out = renderHead r)))) ∧
+      ((∀ u ∈ headUnits r, u.length ≤ cap) → res = .ok () ∧ headPos c.analyzeRequest.1 < headPos c2) := by
   obtain ⟨h1, h2, h3, h4, h5, h6, h6', h7⟩ := h
   generalize hc1 : c.analyzeRequest.1 = c1 at *
   have hh : c1.req.headers ≠ [] := by rw [h2]; exact hne
@@ -137,7 +139,28 @@ theorem head_prelude (r : AReq) (wr0 : BodyWriter) (hne : r.headers ≠ []) (c :
   have hc2v : validPhase r.headers.length c2.phase := by rw [← h2]; exact s3
   have han2 : c2.analyzeRequest = (c2, .ok ()) := analyze_of_analyzed c2 hc2a
   rw [h2] at s1 s2 s5 s6
-  refine ⟨c2, w2, res, rfl, hc2a, hc2r, hc2w, hc2v, ?_⟩
+  have hbigp : (∀ u ∈ headUnits r, u.length ≤ cap) → res = .ok () ∧ headPos c1 < headPos c2 := by
+    intro hbig
+    have hul : (headUnits r).length = r.headers.length + 1 := by simp [headUnits, headerUnits_length]
+    have hpos : headPos c1 ≤ r.headers.length := by
+      unfold headPos
+      rw [h2]
+      cases hq : c1.phase <;> simp [hq, Phase.isPrelude, validPhase, phasePos] at h5 h4 ⊢
+      omega
+    have hne' : greedy ((headUnits r).drop (headPos c1)) cap ≠ [] := by
+      cases hd : (headUnits r).drop (headPos c1) with
+      | nil =>
+        have : (headUnits r).length ≤ headPos c1 := List.drop_eq_nil_iff.mp hd
+        omega
+      | cons u rest =>
+        have hu : u ∈ headUnits r := List.mem_of_mem_drop (by rw [hd]; simp)
+        simp [greedy, hbig u hu]
+    constructor
+    · rw [s5]; simp [hne']
+    · rw [s2]
+      have : 0 < (greedy ((headUnits r).drop (headPos c1)) cap).length := List.length_pos_iff.mpr hne'
+      omega
+  refine ⟨c2, w2, res, rfl, hc2a, hc2r, hc2w, hc2v, ?_, hbigp⟩
   by_cases hov : greedy ((headUnits r).drop (headPos c1)) cap = [] ∧ headPos c1 ≤ r.headers.length
   · rw [if_pos hov] at s5
     have hc2 : c2 = c1 := s6 hov.1
@@ -182,42 +205,57 @@ theorem sendreq_write (r : AReq) (wr0 : BodyWriter) (hne : r.headers ≠ []) (f 
       ((stepSendRequest f (.write cap) = ({ f with call := c2 }, .fault (.api .outputOverflow)) ∧ HeadAt r wr0 c2 wire) ∨
        (∃ out, stepSendRequest f (.write cap) = ({ f with call := c2 }, .bytes 0 out) ∧
           ((c2.phase.isPrelude = true ∧ HeadAt r wr0 c2 (wire ++ out)) ∨
-           (c2.phase = .sendBody ∧ wire ++ out = renderHead r)))) := by
-  obtain ⟨c2, w2, res, hwp, hc2a, hc2r, hc2w, hc2v, hcase⟩ := head_prelude r wr0 hne f.call wire hat cap
+           (c2.phase = .sendBody ∧ wire ++ out = renderHead r)))) ∧
+      ((∀ u ∈ headUnits r, u.length ≤ cap) →
+        (stepSendRequest f (.write cap)).2 ≠ .fault (.api .outputOverflow) ∧ headPos f.call.analyzeRequest.1 < headPos c2) := by
+  obtain ⟨c2, w2, res, hwp, hc2a, hc2r, hc2w, hc2v, hcase, hprog⟩ := head_prelude r wr0 hne f.call wire hat cap
   obtain ⟨h1, h2, h3, h4, h5, h6, h6', h7⟩ := hat
   have hsplit : f.call.analyzeRequest = (f.call.analyzeRequest.1, .ok ()) := by rw [← h1]
-  refine ⟨c2, hc2a, hc2r, hc2w, ?_⟩
   have hpre : f.call.phase.isPrelude = true := by rw [h6']; exact h5
-  rcases hh with hh | hh
-  · -- without body
-    rcases hcase with ⟨rfl, hat2⟩ | ⟨rfl, hc⟩
-    · refine Or.inl ⟨?_, hat2⟩
-      unfold stepSendRequest CallSt.writeNoBody
-      simp only [hh]
-      rw [hsplit]
-      dsimp only
-      rw [hwp]
-    · refine Or.inr ⟨w2.out, ?_, hc⟩
-      unfold stepSendRequest CallSt.writeNoBody
-      simp only [hh]
-      rw [hsplit]
-      dsimp only
-      rw [hwp]
-  · rcases hcase with ⟨rfl, hat2⟩ | ⟨rfl, hc⟩
-    · refine Or.inl ⟨?_, hat2⟩
-      unfold stepSendRequest CallSt.writeBody
-      simp only [hh, hpre, Bool.not_true, Bool.false_eq_true, if_false]
-      rw [hsplit]
-      dsimp only
-      simp only [h5, if_true]
-      rw [hwp]
-    · refine Or.inr ⟨w2.out, ?_, hc⟩
-      unfold stepSendRequest CallSt.writeBody
-      simp only [hh, hpre, Bool.not_true, Bool.false_eq_true, if_false]
-      rw [hsplit]
-      dsimp only
-      simp only [h5, if_true]
-      rw [hwp]
+  have hmain : ((stepSendRequest f (.write cap) = ({ f with call := c2 }, .fault (.api .outputOverflow)) ∧ res = .error (.api .outputOverflow) ∧ HeadAt r wr0 c2 wire) ∨
+       (∃ out, stepSendRequest f (.write cap) = ({ f with call := c2 }, .bytes 0 out) ∧
+          ((c2.phase.isPrelude = true ∧ HeadAt r wr0 c2 (wire ++ out)) ∨
+           (c2.phase = .sendBody ∧ wire ++ out = renderHead r)))) := by
+    rcases hh with hh | hh
+    · -- without body
+      rcases hcase with ⟨rfl, hat2⟩ | ⟨rfl, hc⟩
+      · refine Or.inl ⟨?_, rfl, hat2⟩
+        unfold stepSendRequest CallSt.writeNoBody
+        simp only [hh]
+        rw [hsplit]
+        dsimp only
+        rw [hwp]
+      · refine Or.inr ⟨w2.out, ?_, hc⟩
+        unfold stepSendRequest CallSt.writeNoBody
+        simp only [hh]
+        rw [hsplit]
+        dsimp only
+        rw [hwp]
+    · rcases hcase with ⟨rfl, hat2⟩ | ⟨rfl, hc⟩
+      · refine Or.inl ⟨?_, rfl, hat2⟩
+        unfold stepSendRequest CallSt.writeBody
+        simp only [hh, hpre, Bool.not_true, Bool.false_eq_true, if_false]
+        rw [hsplit]
+        dsimp only
+        simp only [h5, if_true]
+        rw [hwp]
+      · refine Or.inr ⟨w2.out, ?_, hc⟩
+        unfold stepSendRequest CallSt.writeBody
+        simp only [hh, hpre, Bool.not_true, Bool.false_eq_true, if_false]
+        rw [hsplit]
+        dsimp only
+        simp only [h5, if_true]
+        rw [hwp]
+  refine ⟨c2, hc2a, hc2r, hc2w, ?_, ?_⟩
+  · rcases hmain with ⟨a, _, b⟩ | h
+    · exact Or.inl ⟨a, b⟩
+    · exact Or.inr h
+  · intro hbig
+    obtain ⟨hok, hlt⟩ := hprog hbig
+    refine ⟨?_, hlt⟩
+    rcases hmain with ⟨_, hres, _⟩ | ⟨out, hst, _⟩
+    · rw [hok] at hres; cases hres
+    · rw [hst]; simp
 
 theorem wireOf_append_open (cs cs' : List Bytes) (e : Bool) : wireOf cs false ++ wireOf cs' e = wireOf (cs ++ cs') e := by
   simp [wireOf, List.append_assoc]
@@ -237,7 +275,8 @@ theorem sendbody_write (f : Flow) (P : Bytes) (off : Nat) (bw : Bytes) (k cap : 
       ((∃ l, f.call.writer.mode = .sized l) → ∃ l', c2.writer.mode = .sized l') ∧
       (c2.writer.ended = true → off + n = P.length ∧
          ((f.call.writer.mode = .chunked ∧ ∃ cs : List Bytes, (∀ x ∈ cs, x ≠ []) ∧ bw ++ out = wireOf cs true ∧ cs.flatten = P) ∨
-          ((∃ l, f.call.writer.mode = .sized l) ∧ bw ++ out = P))) := by
+          ((∃ l, f.call.writer.mode = .sized l) ∧ bw ++ out = P))) ∧
+      (6 ≤ cap → 0 < n ∨ c2.writer.ended = true) := by
   have hwb : f.call.writeBody ((P.drop off).take (k + 1)) cap = f.call.writeBodyPhase ((P.drop off).take (k + 1)) cap := by
     unfold CallSt.writeBody
     rw [analyze_of_analyzed f.call ha]
@@ -248,7 +287,7 @@ theorem sendbody_write (f : Flow) (P : Bytes) (off : Nat) (bw : Bytes) (k cap : 
   | chunked =>
     simp only [BodyAt, hm, hne] at hb
     obtain ⟨cs, hcs, hbw, hfl, hoff, _⟩ := hb
-    obtain ⟨cs', n, e, hstep, hcs', hfl', hn, _, hterm, _⟩ := C03_step_open f.call ((P.drop off).take (k + 1)) cap hm hne
+    obtain ⟨cs', n, e, hstep, hcs', hfl', hn, _, hterm, hemp⟩ := C03_step_open f.call ((P.drop off).take (k + 1)) cap hm hne
     have hflat : (cs ++ cs').flatten = P.take (off + n) := by
       rw [List.flatten_append, hfl, hfl', List.take_take, ← take_add_drop]
       congr 2
@@ -266,7 +305,14 @@ theorem sendbody_write (f : Flow) (P : Bytes) (off : Nat) (bw : Bytes) (k cap : 
         | cons x xs => rw [hq] at hi; simp at hi
       have : P.length ≤ off := by simpa using hd
       rw [hi] at hn; simp at hn; omega
-    refine ⟨{ f.call with writer := { mode := .chunked, ended := e } }, n, wireOf cs' e, ?_, ha, rfl, hp, ?_, fun _ => rfl, fun ⟨l, hl⟩ => by simp [hm] at hl, ?_⟩
+    have hprog : 6 ≤ cap → 0 < n ∨ e = true := by
+      intro hcap
+      by_cases hi : (P.drop off).take (k + 1) = []
+      · right; exact ((hemp hi).2.2).mpr (by omega)
+      · left
+        have := C19_progress_chunked f.call _ cap hm hne hi hcap
+        simpa [consumedBy, hstep] using this
+    refine ⟨{ f.call with writer := { mode := .chunked, ended := e } }, n, wireOf cs' e, ?_, ha, rfl, hp, ?_, fun _ => rfl, fun ⟨l, hl⟩ => by simp [hm] at hl, ?_, hprog⟩
     · unfold stepSendBody
       simp only [hne', Bool.false_eq_true, if_false, hwb, hstep]
     · simp only [BodyAt]
@@ -295,7 +341,7 @@ theorem sendbody_write (f : Flow) (P : Bytes) (off : Nat) (bw : Bytes) (k cap : 
     have hout : P.take off ++ ((P.drop off).take (k + 1)).take n = P.take (off + n) := by
       rw [List.take_take, ← take_add_drop]
       congr 2; omega
-    refine ⟨{ f.call with writer := { mode := .sized (left - n), ended := f.call.writer.ended || left - n == 0 } }, n, ((P.drop off).take (k + 1)).take n, ?_, ha, rfl, hp, ?_, fun h => by simp [hm] at h, fun _ => ⟨_, rfl⟩, ?_⟩
+    refine ⟨{ f.call with writer := { mode := .sized (left - n), ended := f.call.writer.ended || left - n == 0 } }, n, ((P.drop off).take (k + 1)).take n, ?_, ha, rfl, hp, ?_, fun h => by simp [hm] at h, fun _ => ⟨_, rfl⟩, ?_, ?_⟩
     · unfold stepSendBody
       simp only [hne', Bool.false_eq_true, if_false, hwb, hcopy]
     · simp only [BodyAt]
@@ -306,6 +352,17 @@ theorem sendbody_write (f : Flow) (P : Bytes) (off : Nat) (bw : Bytes) (k cap : 
       have hoffn : off + n = P.length := by omega
       refine ⟨hoffn, Or.inr ⟨⟨left, rfl⟩, ?_⟩⟩
       rw [hbw, hout, hoffn]; simp
+    · intro hcap
+      by_cases hi : ((P.drop off).take (k + 1)).length = 0
+      · right
+        have hd : (P.drop off).length = 0 := by
+          cases hq : P.drop off with
+          | nil => rfl
+          | cons x xs => rw [hq] at hi; simp at hi
+        have : left = 0 := by simp at hd; omega
+        show (f.call.writer.ended || left - n == 0) = true
+        simp [this]
+      · left; omega
 
 /-- entering `SendBody` from a flow whose head is out and whose body is due -/
 theorem enter_body_inv (f0 : Flow) (r : AReq) (wr0 : BodyWriter) (P : Bytes) (f : Flow) (o : SendObs)
@@ -354,7 +411,9 @@ theorem send_step_A (hack : Bool) (f0 : Flow) (r : AReq) (wr0 : BodyWriter) (P :
     (body and `Expect`) or `SendBody` -/
 theorem send_step_B (hack : Bool) (f0 : Flow) (r : AReq) (wr0 : BodyWriter) (P : Bytes) (S : SendSetup f0 r wr0 P)
     (f : Flow) (o : SendObs) (s : IoStep) (h : SendB f0 r wr0 f o) :
-    SendB f0 r wr0 (sendStep hack P (f, o) s).1 (sendStep hack P (f, o) s).2 ∨
+    (SendB f0 r wr0 (sendStep hack P (f, o) s).1 (sendStep hack P (f, o) s).2 ∧
+       ((∀ u ∈ headUnits r, u.length ≤ s.cap) →
+          headPos f.call.analyzeRequest.1 < headPos (sendStep hack P (f, o) s).1.call.analyzeRequest.1)) ∨
     (SendC f0 r wr0 P (sendStep hack P (f, o) s).1 (sendStep hack P (f, o) s).2 ∧
        (sendStep hack P (f, o) s).1.await100 = false ∧ f0.await100 = false) ∨
     (SendD f0 r wr0 P (sendStep hack P (f, o) s).1 (sendStep hack P (f, o) s).2 ∧
@@ -366,7 +425,7 @@ theorem send_step_B (hack : Bool) (f0 : Flow) (r : AReq) (wr0 : BodyWriter) (P :
     rw [hh]; rcases S.hkind with h | h
     · exact Or.inl h.1
     · exact Or.inr h.1
-  obtain ⟨c2, hc2a, hc2r, hc2w, hcase⟩ := sendreq_write r wr0 S.hne f o.wire hhold hat s.cap
+  obtain ⟨c2, hc2a, hc2r, hc2w, hcase, hprog⟩ := sendreq_write r wr0 S.hne f o.wire hhold hat s.cap
   unfold sendStep
   simp only [hst]
   rw [flow_step_sendreq hack f _ hst]
@@ -378,8 +437,11 @@ theorem send_step_B (hack : Bool) (f0 : Flow) (r : AReq) (wr0 : BodyWriter) (P :
   have h1aw : f1.await100 = f0.await100 := by rw [← hf1]; exact haw
   have h1c : f1.call = c2 := by rw [← hf1]
   rcases hcase with ⟨hstep, hat2⟩ | ⟨out, hstep, hcase2⟩
-  · rw [hstep]
-    exact Or.inl ⟨h1st, h1h, h1sb, h1cr, h1aw, hoff, by rw [h1c]; exact hat2⟩
+  · have hov : (stepSendRequest f (.write s.cap)).2 = .fault (.api .outputOverflow) := by rw [hstep]
+    rw [hstep]
+    refine Or.inl ⟨⟨h1st, h1h, h1sb, h1cr, h1aw, hoff, by rw [h1c]; exact hat2⟩, ?_⟩
+    intro hbig
+    exact absurd hov (hprog hbig).1
   · rw [hstep]
     dsimp only
     rcases hcase2 with ⟨hpre, hat2⟩ | ⟨hsbp, hwire⟩
@@ -388,7 +450,10 @@ theorem send_step_B (hack : Bool) (f0 : Flow) (r : AReq) (wr0 : BodyWriter) (P :
         rcases hhold with e | e <;> (rw [hh] at e; simp only [h1st, h1h, e, h1c]) <;>
           cases hq : c2.phase <;> simp [hq, Phase.isPrelude, isOkTrue] at hpre ⊢
       simp only [hcp, Bool.false_eq_true, if_false]
-      exact Or.inl ⟨h1st, h1h, h1sb, h1cr, h1aw, hoff, by rw [h1c]; exact hat2⟩
+      refine Or.inl ⟨⟨h1st, h1h, h1sb, h1cr, h1aw, hoff, by rw [h1c]; exact hat2⟩, ?_⟩
+      intro hbig
+      rw [h1c, analyze_of_analyzed c2 hc2a]
+      exact (hprog hbig).2
     · have hcp : f1.canProceed = .ok true := by
         unfold Flow.canProceed
         rcases hhold with e | e <;> (rw [hh] at e; simp [h1st, h1h, e, h1c, hsbp, Phase.isPrelude])
@@ -425,11 +490,12 @@ theorem send_step_B (hack : Bool) (f0 : Flow) (r : AReq) (wr0 : BodyWriter) (P :
     the awaiting-100 flag is not touched -/
 theorem send_step_C (hack : Bool) (f0 : Flow) (r : AReq) (wr0 : BodyWriter) (P : Bytes)
     (f : Flow) (o : SendObs) (s : IoStep) (h : SendC f0 r wr0 P f o) :
-    (SendC f0 r wr0 P (sendStep hack P (f, o) s).1 (sendStep hack P (f, o) s).2 ∨
+    ((SendC f0 r wr0 P (sendStep hack P (f, o) s).1 (sendStep hack P (f, o) s).2 ∧
+        (6 ≤ s.cap → o.off < (sendStep hack P (f, o) s).2.off)) ∨
      SendD f0 r wr0 P (sendStep hack P (f, o) s).1 (sendStep hack P (f, o) s).2) ∧
     (sendStep hack P (f, o) s).1.await100 = f.await100 := by
   obtain ⟨hst, hh, hcr, ha, hreq, hp, hne, hkind, bw, hw, hb⟩ := h
-  obtain ⟨c2, n, out, hstep, hc2a, hc2r, hc2p, hb2, hk1, hk2, hend⟩ :=
+  obtain ⟨c2, n, out, hstep, hc2a, hc2r, hc2p, hb2, hk1, hk2, hend, hprogC⟩ :=
     sendbody_write f P o.off bw s.m s.cap hh ha hp hne hb
   unfold sendStep
   simp only [hst]
@@ -447,13 +513,18 @@ theorem send_step_C (hack : Bool) (f0 : Flow) (r : AReq) (wr0 : BodyWriter) (P :
   cases he : c2.writer.ended with
   | false =>
     simp only [isOkTrue, Bool.false_eq_true, if_false]
-    refine ⟨Or.inl ⟨h1st, h1h, h1cr, by rw [h1c]; exact hc2a, by rw [h1c, hc2r, hreq],
-      by rw [h1c]; exact hc2p, by rw [h1c]; exact he, ?_, bw ++ out, ?_, by rw [h1c]; exact hb2⟩, h1aw⟩
+    refine ⟨Or.inl ⟨⟨h1st, h1h, h1cr, by rw [h1c]; exact hc2a, by rw [h1c, hc2r, hreq],
+      by rw [h1c]; exact hc2p, by rw [h1c]; exact he, ?_, bw ++ out, ?_, by rw [h1c]; exact hb2⟩, ?_⟩, h1aw⟩
     · rw [h1c]
       rcases hkind with ⟨e1, e2⟩ | ⟨e1, e2⟩
       · exact Or.inl ⟨e1, hk1 e2⟩
       · exact Or.inr ⟨e1, hk2 e2⟩
     · show o.wire ++ out = renderHead r ++ (bw ++ out); rw [hw, List.append_assoc]
+    · intro hcap
+      show o.off < o.off + n
+      rcases hprogC hcap with h | h
+      · omega
+      · rw [he] at h; cases h
   | true =>
     simp only [isOkTrue, if_true]
     rw [flow_step_sendbody hack f1 _ h1st]
